@@ -262,7 +262,7 @@ def check_success_iff_no_error(ctx, num=5):
         ctx.ob(num, "K2", "num_completed is incremented by one exactly for containers that end without an error", ok and in_move and guarded and comp is None,
                f, n, detail=f"+1: {ok}; inside the active->gone collection: {in_move}; guarded by `{cv}.error is None`: {guarded}; "
                             f"every error-free ending container counted: {comp is None}")
-    others = [w for w in attr_writes(P, "num_completed") if w.node not in incs and f"{w.fn.qual}" != "ResourcePool.__init__"]
+    others = [w for w in attr_writes(P, "num_completed") if w.fn.qual != "ResourcePool.__init__" and not (w.fn.mod.rel == RP and w.fn.qual in pa.closure)]
     for w in others:
         ctx.ob(num, "K1", "num_completed is written only at construction and in the completion sweep", False, w.fn, w.node, detail=repr(w))
     fl = P.fn(AS, "ExecutionResult.failed")
